@@ -1,0 +1,42 @@
+//go:build verif
+
+// Ghost helpers for contract clauses (build tag verif only). The verifier
+// (/verif/govc) gives __forall / __exists / __old their logical meaning; the
+// bodies below are the executable reading used when a counterexample is
+// replayed: quantifiers range over the finite window __ghostWindow.
+
+package imapserver
+
+type __ghostInt interface {
+	~int | ~int64 | ~uint32 | ~uint64 | ~uint8 | ~int32
+}
+
+var __ghostWindow = []int64{-1, 0, 1, 2, 3, 4, 5, 6, 7, 8}
+
+func __forall[T __ghostInt](f func(T) bool) bool {
+	for _, v := range __ghostWindow {
+		if T(v) >= 0 != (v >= 0) {
+			continue
+		}
+		if !f(T(v)) {
+			return false
+		}
+	}
+	return true
+}
+
+func __exists[T __ghostInt](f func(T) bool) bool {
+	for _, v := range __ghostWindow {
+		if T(v) >= 0 != (v >= 0) {
+			continue
+		}
+		if f(T(v)) {
+			return true
+		}
+	}
+	return false
+}
+
+func __old[T any](tok int, x T) T { return x }
+
+func __oldEnter() int { return 0 }
